@@ -72,6 +72,10 @@ def isConstIdent (bc : List (List Rune)) (n : List Rune) : Bool :=
 
 def isSymbolIdent (n : List Rune) : Bool := decide (byteLen n > 1) && firstByte n == 58
 
+/-- t_predicate.go:IsVariableIdentifier on an identifier name: what a pattern, a block or a method header binds -/
+def isVariableIdent (n : List Rune) : Bool :=
+  n != [] && (firstByte n == 64 || firstByte n == 36 || firstByte n == 95 || isLower (firstByte n))
+
 def classify (bc : List (List Rune)) (n : List Rune) : TK :=
   if n == TRUE_ || n == FALSE_ then .bool
   else if isClassIdent bc n then .cls n
